@@ -264,10 +264,10 @@ func positionsReplay(t *testing.T, env vh.Env) bool {
 		return false
 	}
 	var c PosCase
-	if err := vh.LoadReplayCase(env.Replay, &c); err != nil || (c.Kind != "positions" && c.Kind != "tlsrestart" && c.Kind != "waitstage" && c.Kind != "recstall") {
+	if err := vh.LoadReplayCase(env.Replay, &c); err != nil || (c.Kind != "positions" && c.Kind != "tlsrestart" && c.Kind != "waitstage" && c.Kind != "recstall" && c.Kind != "settle") {
 		return false
 	}
-	if c.Kind == "tlsrestart" || c.Kind == "waitstage" || c.Kind == "recstall" { // waitStageJudge does the same
+	if c.Kind == "tlsrestart" || c.Kind == "waitstage" || c.Kind == "recstall" || c.Kind == "settle" { // waitStageJudge does the same
 		positionsRun(t, env, nil) // tlsRestartJudge picks the scenario up from the replay file
 		return true
 	}
@@ -313,6 +313,7 @@ func positionsRun(t *testing.T, env vh.Env, cases []PosCase) {
 		}
 	}
 	tlsRestartJudge(env, run)
+	settleJudge(t, env, run)
 	waitStageJudge(t, env, run) // waitstage_test.go
 	recorderJudge(t, env, run)  // recorder_test.go
 	if err := run.Finish("positions: membership histories (join, leave, crash, replacement by a new name with no Position() call in between, same-name restart) on 2-4 real memberlists with adversarial names over the in-memory hub in virtual time; one case per settled instant = every live peer's (name, Position()); non-trivial = history with a replacement"); err != nil {
